@@ -49,6 +49,8 @@ func secondContext(c *Check) map[string]interface{} {
 	p2 := loadProg(c.P.Dir, false, "386")
 	c2 := &Check{P: p2, Prop: c.Prop, Tier: "quick", start: time.Now(), info: map[string]interface{}{}, assum: map[string]bool{}}
 	rules[c.Prop](c2)
+	commonPreconditions(c2)
+	dynResolver = c.P.resolveDynCalls // the resolver follows the primary program again
 	verd := func(x *Check) map[string]bool {
 		m := map[string]bool{}
 		for _, o := range x.Obls {
